@@ -75,3 +75,7 @@ pub mod c38;
 pub mod c39;
 pub mod c33;
 pub mod c32;
+pub mod rt;
+pub mod c17;
+pub mod c18;
+pub mod c19;
